@@ -543,7 +543,7 @@ def run_marginal(ctx, term, df, dth):
             for ri, r in enumerate(MARGINAL_R):
                 E = shape * (r * r_onset)
                 above = reference_saturation(E, f, d, dth, width, power) > thr
-                n_above = int(np.sum(above))
+                n_above = int(np.sum(above[low]))   # bins that can act on shorter waves through the cumulative term
                 c.cat(f"marginal_bins_above_threshold_{min(n_above, 6)}{'+' if n_above >= 6 else ''}")
                 if np.any(np.sum(above[low], axis=1) == 1):
                     c.cat("marginal_exactly_one_direction_above_threshold")
